@@ -144,8 +144,19 @@ Definition row_ok (e : posting * Z) (o : orow) : bool :=
   acct_eqb (p_acc (fst e)) (o_acc o) && str_eqb (p_comm (fst e)) (o_comm o)
   && (pamt28 (fst e) =? d28 (o_amount o)) && (snd e =? d28 (o_total o)).
 
-Definition entry_ok (names : list acct) (e : txn * list (posting * Z)) (o : oentry) : bool :=
-  rforall2b row_ok (filter (fun r => keep names (fst r)) (snd e)) (snd o).
+Definition has_rows {A B} (e : A * list B) : bool := match snd e with [] => false | _ => true end.
+
+(* what must be listed when the transactions `out` (positions `order` in the input) are
+   reported with the selector `names`: per transaction the selected rows of the complete
+   register; entries left without rows are not listed *)
+Definition expected_entries (names : list acct) (order : list nat) (out : list txn)
+  : list (nat * list (posting * Z)) :=
+  filter has_rows
+    (combine order (map (fun e => filter (fun r => keep names (fst r)) (snd e))
+                        (spec_entries entry_posts [] out))).
+
+Definition entry_ok (e : nat * list (posting * Z)) (o : oentry) : bool :=
+  Nat.eqb (fst e) (fst o) && rforall2b row_ok (snd e) (snd o).
 
 (* rows inside an entry ascend by (commodity, account string) *)
 Definition orow_key (o : orow) : key := (o_acc o, o_comm o).
@@ -164,12 +175,15 @@ Definition last_is_balance_b (input : list txn) (obs : list oentry) : bool :=
                     | None => false
                     end) (flat_map t_posts input).
 
-Definition reg_ok (input : list txn) (names : list acct) (obs : list oentry) : bool :=
-  match pick input (map fst obs) with
+(* order: positions (in the input) of the transactions in the implementation's order;
+   obs: the register entries it produced (entries without rows are ignored: the text
+   report does not show them) *)
+Definition reg_ok (input : list txn) (names : list acct) (order : list nat) (obs : list oentry) : bool :=
+  match pick input order with
   | None => false
   | Some out =>
-      order_ok input (map fst obs) out
-      && rforall2b (entry_ok names) (spec_entries entry_posts [] out) obs
+      order_ok input order out
+      && rforall2b entry_ok (expected_entries names order out) (filter has_rows obs)
       && forallb (fun o => rows_sorted_b (snd o)) obs
       && match names with [] => last_is_balance_b input obs | _ => true end
   end.
